@@ -13,6 +13,22 @@ use std::io::Write;
 
 pub const KINDS: &[&str] = &["c09", "c09iter"];
 
+#[cfg(verif_h9)]
+fn twise_log_start() {
+    ddnnife::ddnnf::anomalies::t_wise_sampling::verif_twise::verif_twise_log_start();
+}
+#[cfg(verif_h9)]
+fn twise_log_take() -> Option<Vec<String>> {
+    Some(ddnnife::ddnnf::anomalies::t_wise_sampling::verif_twise::verif_twise_log_take())
+}
+// hook H9 (repo_patches/H9-twise-choice-log.patch) absent: no replay, post-condition check only
+#[cfg(not(verif_h9))]
+fn twise_log_start() {}
+#[cfg(not(verif_h9))]
+fn twise_log_take() -> Option<Vec<String>> {
+    None
+}
+
 fn cfgs_text(cfgs: &[Vec<i32>]) -> String {
     cfgs.iter().map(|c| join(c)).collect::<Vec<_>>().join(" ; ")
 }
@@ -113,7 +129,20 @@ fn run_twise(ctx: &Ctx, out: &mut dyn Write) {
                 for t in 1..=tmax_for(inp.n, quick) {
                     for _ in 0..reps {
                         writeln!(s, "op twise {} plain", t).unwrap();
-                        match guarded(|| result_text(&d.sample_t_wise(t))) {
+                        twise_log_start();
+                        let res = guarded(|| result_text(&d.sample_t_wise(t)));
+                        // hook H9: the order decisions of this run (hash-set iteration, sort ties,
+                        // shuffle, trim), replayed by chk_c09 as the oracles of the extracted model
+                        match twise_log_take() {
+                            Some(log) => {
+                                writeln!(s, "olog {}", log.len()).unwrap();
+                                for l in log {
+                                    writeln!(s, "o {}", l).unwrap();
+                                }
+                            }
+                            None => writeln!(s, "olog absent").unwrap(),
+                        }
+                        match res {
                             Ok(r) => writeln!(s, "r {}", r).unwrap(),
                             Err(e) => writeln!(s, "panic {}", e).unwrap(),
                         }
